@@ -34,7 +34,7 @@ def execute_one(check, seed, run, engine, tier, entry=None):
     return plan, rec
 
 
-def worker_main(k, args, runs, entry):
+def worker_main(k, args, runs, entry, beat=None):
     from .util import dumps
     path = os.path.join(args.out, f"{args.engine}.{k}.jsonl")
     faulthandler.enable(open(os.path.join(args.out, f"{args.engine}.{k}.fault"), "w"))
@@ -47,6 +47,8 @@ def worker_main(k, args, runs, entry):
             f.write(dumps(dict(START=run)) + "\n")
             f.flush()
             t = time.time()
+            if beat is not None:
+                beat[2 * k], beat[2 * k + 1] = float(run), t
             try:
                 signal.alarm(int(args.run_cap))
                 plan, rec = execute_one(args.check, args.seed, run, args.engine, args.tier, entry)
@@ -67,6 +69,8 @@ def worker_main(k, args, runs, entry):
             f.write(dumps(out) + "\n")
             f.flush()
         f.write(dumps(dict(DONE=k)) + "\n")
+    if beat is not None:
+        beat[2 * k + 1] = 0.0
     os._exit(0)
 
 
@@ -117,12 +121,16 @@ def main(argv=None):
     shard_entry = {k: (entries[k % len(entries)] if entries else None) for k in range(W)}
     pids = {}
     died = []
+    import multiprocessing
+    beat = multiprocessing.RawArray("d", 2 * W)   # (current run, start time) per worker
+    hung = {}
 
     def spawn(k, runs):
+        beat[2 * k + 1] = 0.0
         pid = os.fork()
         if pid == 0:
             try:
-                worker_main(k, args, runs, shard_entry[k])
+                worker_main(k, args, runs, shard_entry[k], beat)
             finally:
                 os._exit(1)
         pids[pid] = k
@@ -131,7 +139,20 @@ def main(argv=None):
         if shards[k]:
             spawn(k, shards[k])
     while pids:
-        pid, status = os.wait()
+        pid, status = os.waitpid(-1, os.WNOHANG)
+        if pid == 0:
+            # a compiled kernel cannot be interrupted by SIGALRM: enforce the cap from outside
+            now = time.time()
+            for wpid, wk in list(pids.items()):
+                t_start = beat[2 * wk + 1]
+                if t_start and now - t_start > args.run_cap + 20:
+                    hung[wpid] = int(beat[2 * wk])
+                    try:
+                        os.kill(wpid, signal.SIGKILL)
+                    except ProcessLookupError:
+                        pass
+            time.sleep(0.25)
+            continue
         k = pids.pop(pid)
         path = os.path.join(args.out, f"{args.engine}.{k}.jsonl")
         started, finished, done = last_started(path)
@@ -140,9 +161,13 @@ def main(argv=None):
         # the worker died: attribute to the run it had started and not finished
         code = -os.WTERMSIG(status) if os.WIFSIGNALED(status) else os.WEXITSTATUS(status)
         if started is not None and started not in finished:
-            died.append(dict(run=started, worker_died=code))
+            if pid in hung:
+                rec = dict(run=started, hang=True, inconclusive="hang")
+            else:
+                rec = dict(run=started, worker_died=code)
+            died.append(rec)
             with open(path, "a") as f:
-                f.write(json.dumps(dict(run=started, worker_died=code)) + "\n")
+                f.write(json.dumps(rec) + "\n")
             remaining = [r for r in shards[k] if r > started]
         else:
             remaining = [r for r in shards[k] if r not in finished]
